@@ -1,4 +1,5 @@
-"""C18  Woehler test-data analysis: the finite / infinite zone partition clause (the only encodable clause)."""
+"""C18  Woehler test-data analysis: the finite / infinite zone partition clause and the equivariance of the zone
+transition (the elementary endurance estimate) -- the encodable clauses."""
 import itertools
 
 import numpy as np
@@ -25,7 +26,7 @@ OUTSIDE = ("equivariance, exact recovery and likelihood ordering of the Elementa
            "squares, scipy.optimize.fmin, norm.ppf on symbolic data have no encoding); more rows than the bound")
 RULE = ("one evaluation = one explored path (order type of the loads incl. ties, per fracture pattern); distinct = distinct "
         "(rows, flags, zone membership); non-trivial = both zones non-empty")
-LABELS = ["zones.partition", "zones.bracket_transition", "zones.permutation_invariant"]
+LABELS = ["zones.partition", "zones.bracket_transition", "zones.permutation_invariant", "zones.scale_equivariant"]
 
 
 def bounds(tier):
@@ -43,6 +44,9 @@ def cases(tier):
             if m >= 4:
                 c["_split"] = 5
             out.append(c)
+            if m <= (3 if q else 4):
+                c2 = dict(c, scale=True)
+                out.append(c2)
     return out
 
 
@@ -55,6 +59,8 @@ def _apply_canary(ctx):
         ctx.patch(F, "max_runout_load", property(mutated(F.max_runout_load.fget, "return self.runouts.load.max()", "return self.runouts.load.min()")))
     elif cn == "infinite_zone_runouts_only":
         ctx.patch(F, "_calc_finite_zone_manual", mutated(F._calc_finite_zone_manual, "self._infinite_zone = self._obj[self._obj.load <= limit]", "self._infinite_zone = self.runouts"))
+    elif cn == "guess_with_constant_step":
+        ctx.patch(F, "_guess_from_second_highest_runout", mutated(F._guess_from_second_highest_runout, "return max_loads[1] + (max_loads[1]-max_loads[0]) / 2.", "return max_loads[1] + 1."))
     elif cn is not None:
         raise RuntimeError("unknown canary " + cn)
 
@@ -63,8 +69,9 @@ CANARIES = [
     {"name": "finite_zone_includes_limit", "cases": [{"m": 3, "flags": [True, True, False]}]},
     {"name": "transition_from_min_runout", "cases": [{"m": 4, "flags": [True, True, False, False]}]},
     {"name": "infinite_zone_runouts_only", "cases": [{"m": 3, "flags": [True, True, False]}]},
+    {"name": "guess_with_constant_step", "cases": [{"m": 3, "flags": [True, True, False], "scale": True}]},
 ]
-QUICK_CANARIES = 3
+QUICK_CANARIES = 4
 
 
 def _unique_fallback(orig):
@@ -116,4 +123,16 @@ def run(ctx, case):
         fin2, inf2, trans2 = _zones(ctx, loads, cycles, flags, perm)
         ctx.claim(fin2 == fin and inf2 == inf, "zones.permutation_invariant", (perm, fin2, inf2))
         ctx.claim(ctx.close(trans2, trans), "zones.permutation_invariant", (perm, trans2, trans))
+    # multiplying all loads by c > 0 multiplies the transition (the elementary endurance estimate SD) by c and keeps the
+    # zones; multiplying all cycle numbers by c changes neither
+    if case.get("scale"):
+        c = ctx.real("c")
+        ctx.assume(c > 0)
+        ctx.hint(sym_and(c <= 4, c >= 0.25))
+        fin3, inf3, trans3 = _zones(ctx, [c * v for v in loads], cycles, flags, list(range(m)))
+        ctx.claim(fin3 == fin and inf3 == inf, "zones.scale_equivariant", ("loads scaled", fin3, inf3))
+        ctx.claim(ctx.close(trans3, c * trans), "zones.scale_equivariant", ("loads scaled: transition", trans3, trans))
+        fin4, inf4, trans4 = _zones(ctx, loads, [c * v for v in cycles], flags, list(range(m)))
+        ctx.claim(fin4 == fin and inf4 == inf, "zones.scale_equivariant", ("cycles scaled", fin4, inf4))
+        ctx.claim(ctx.close(trans4, trans), "zones.scale_equivariant", ("cycles scaled: transition", trans4, trans))
     return {"finite": fin, "infinite": inf, "transition": trans}
